@@ -42,6 +42,16 @@ func AdversarialStrings(thorough bool) []string {
 	// URI and JS specials
 	add("a%b > c", "a%25b+c", "%", "%%", "%zz", "+", "a+b", "a=b&c=d", "~-_.!*'()", "http://x/y?z=1#f", "x\\y", "\\", "\\\\",
 		"\\'", "\\u003c", "x\\y'z", "\\n", "'+alert(1)+'", "\";alert(1);//", "</scr\\ipt>", "\x00a\x00", "a\x1fb", "\x7f")
+	// context-sensitive escape hazards: an escape that is only wrong because of what follows or
+	// precedes it (NUL before a digit, a backslash before a letter that forms an escape when
+	// re-read, a lone backslash at the end, line/paragraph separators next to quotes, CR LF pairs)
+	hazards := []string{"\x000", "\x001", "\x007", "\x008", "\x009", "\x00\x00", "\x00a", "\\u0041", "\\u", "\\x41", "\\x",
+		"\\n", "\\r", "\\t", "\\0", "\\01", "\\1", "\\\n", "\\\r\n", "\\", "a\\", "\\\\\\", "\\'", "\\\"", "</script", "</script>", "</ScRiPt x>", "<\\/script>",
+		"]]>", "<![CDATA[x]]>", "<!--", "--!>", "'\u2028'", "\"\u2029\"", "\u2028\n", "'\u2028", "\u2029\"", "\r\n", "\r\n\r\n", "\n\r", "'\r\n'",
+		"\"\r\n\"", "\r", "%0", "%00", "%2", "+%2B", "&#0;", "&#x0;", "&#", "&#1"}
+	for _, h := range hazards {
+		add(h, "id"+h+"1", "x"+h+"y"+h, h+h+"z")
+	}
 	// invalid UTF-8
 	add("\xff", "a\xffb", "\xc3", "\xe2\x82", "\xf0\x9f\x98", "\xed\xa0\x80", "\x80\x80\x80\x80\x80\x80\x80", "é\xff<\xfe>", "\xc0\xbc")
 	// long runs
